@@ -399,7 +399,7 @@ Proof. unfold non_cdda_catalog. destruct (forallb _ _); [destruct (_ <=? _)|]; r
 
 Lemma parse_line_np cdda st raw : is_panic (parse_line cdda st raw) = false.
 Proof.
-  unfold parse_line.
+  unfold parse_line, parse_trimmed.
   destruct (match split_once 32 (trim raw) with Some p => p | None => (trim raw, []) end) as [kw rest].
   destruct (list_eqb kw kw_CATALOG).
   { destruct rest; [reflexivity|]. destruct (ps_catalog st); [reflexivity|].
